@@ -24,4 +24,9 @@ def main(path, tlimit_ms):
 
 
 if __name__ == '__main__':
+    import resource
+    import signal
+    lim = int(float(sys.argv[2]) / 1000.0) + 10
+    signal.alarm(lim)                       # self-destruct: never outlive the caller's budget
+    resource.setrlimit(resource.RLIMIT_CPU, (lim, lim + 5))
     main(sys.argv[1], float(sys.argv[2]))
